@@ -14,6 +14,10 @@ CLAIMED['C12'] = dict(engine='E4', technique='Coq proof over R (closed-form Bezi
     text='Partial proof. Proved for all arcs about the regenerated code: output shape and segment count, per-segment angle <= pi/2+0.001, the closed-form radial error 16 s^2(1-s)^2(2s-1)^2 u^6/(1+u^2)^2 and hence every cubic point within 0.03% outside the corrected ellipse, continuity, exact final end point, radius correction incl. negative radii, degenerate cases. Not proved: that the centre parametrisation realises the flags and puts the first start on the arc start (covered by the differential run and the spec judge).',
     note='Reals for floats; math.* denote Coq Reals functions (base/Num.v RMath); Coq-Interval used for two numeric bounds; translator + extraction + driver trusted glue; float rounding of the implementation observed (<=2e-6 relative in the sqrt-amplified regime), not bounded.',
     design='§7 C12')
+CLAIMED['C09'] = dict(engine='E3', technique='Coq proof: generic simulation theorem between the walk state machine (callbacks regenerated from svg_types.py) and an SVG path interpreter written from the standard, instantiated per rewrite by 20-letter case analysis; exhaustive small-scope + random differential run; spec judge',
+    text='Partial proof. For command lists of any length: the walk bookkeeping equals the standard current-point rules; explicit_lines, expand_shorthand, absolute, absolute_moveto, relative and move preserve (or shift) the interpreted segment list exactly; target forms; rounding bound. The absolute/relative theorems assume no 1e-9 near miss of the subpath start (the code snaps those). subpaths(), arcs in as_cmd_seq, basic-shape outlines are covered by the exhaustive correspondence (all sequences of <=2/3 commands over 20 letters) and the spec judge run on every check.',
+    note='Reals for floats; model/Walk.v (walk loop) hand-written and correspondence-checked; spec/PathSem.v is the meaning of path data; one known finding (arcs_to_cubics API followed by shorthand).',
+    design='§7 C09')
 PENDING = {}
 
 def main():
@@ -43,6 +47,7 @@ def main():
                   'enable': 'none needed: the harness observes picosvg only through its public API (PYTHONPATH=/repo/src) and calls pathops itself',
                   'baseline_off_cmd': BASE, 'source_commits': [], 'add_only': True},
         'engines': [
+            {'name': 'E3', 'path': 'coq/gen/G_types.v coq/gen/G_meta.v (generated) coq/model/Walk.v coq/spec/PathSem.v coq/proofs/E3_*.v', 'serves_properties': ['C09', 'C18', 'C20', 'C01', 'C07'], 'kind_free_text': 'walk state machine and path rewrites vs SVG path semantics'},
             {'name': 'E4', 'path': 'coq/gen/G_arc.v (generated) coq/model/Arc.v coq/proofs/E4_*.v', 'serves_properties': ['C12', 'C09'], 'kind_free_text': 'arc to cubic numerics over R'},
             {'name': 'E1', 'path': 'coq/gen/G_geom.v coq/gen/G_transform.v (generated) coq/proofs/E1_*.v', 'serves_properties': ['C11', 'C06', 'C19', 'C02'], 'kind_free_text': 'affine algebra and rectangles, translated from source'},
         ],
